@@ -169,51 +169,10 @@ def main():
     ck.absorb(eng)
 
     # SetBytes: rejects exactly the encodings >= m and wrong lengths; the accepted value reaches the Montgomery conversion unchanged
+    from sm2lib import setbytes_obligation
     for fname, pre, M, T in FIELDS:
-        eng = new_engine(prog, timeout_ms=60000)
-        seen = {}
-
-        def tomont(e, a, ins, seen=seen):
-            seen['limbs'] = [tobv(x, 64) for x in e.load(a[1])]
-            e.store(a[0], [0, 0, 0, 0])
-            return None
-        eng.intercepts[FIAT + '.%sToMontgomery' % pre] = tomont
-        bad = []
-
-        def run_sb(e, T=T, M=M):
-            v = sym_bytes(e, 'v', 32)
-            obj = e.new_obj([[0, 0, 0, 0]], FIAT + '.' + T)
-            seen.clear()
-            out = e.call_outcome('(*%s.%s).SetBytes' % (FIAT, T), [Ptr(obj, ()), e.new_slice(list(v))])
-            if out.kind != 'return':
-                return ('cex', 'panic ' + out.panic.msg)
-            p, err = out.values
-            V = bytes_to_bv(v)
-            if err is None:
-                if 'limbs' not in seen:
-                    return ('cex', 'accepted without converting')
-                val = z3.Concat(seen['limbs'][3], seen['limbs'][2], seen['limbs'][1], seen['limbs'][0])
-                r = e.prove(z3.And(z3.ULT(V, z3.BitVecVal(M, 256)), val == V))
-            else:
-                r = e.prove(z3.UGE(V, z3.BitVecVal(M, 256)))
-            return (r[0], 'accept/reject or decoded value wrong')
-        for r in eng.explore(run_sb):
-            if r[0] != 'proved':
-                bad.append(r)
-
-        def run_len(e, T=T):
-            rs = []
-            for L in (0, 1, 31, 33, 64):
-                obj = e.new_obj([[0, 0, 0, 0]], FIAT + '.' + T)
-                out = e.call_outcome('(*%s.%s).SetBytes' % (FIAT, T), [Ptr(obj, ()), e.new_slice([0] * L) if L else e.new_slice([])])
-                if out.kind != 'return' or out.values[1] is None:
-                    rs.append(L)
-            return rs
-        lens_bad = eng.explore(run_len)[0]
-        ck.absorb(eng)
-        ok = not bad and not lens_bad
-        record('%s.SetBytes' % fname, True if ok else ('cex' if any(b[0] == 'cex' for b in bad) or lens_bad else 'unknown'),
-               'decode accepts exactly 32-byte encodings of values < m and hands the value to the Montgomery conversion' if ok else 'SetBytes misjudges encodings %s %s' % (bad[:1], lens_bad), (fname, 'SetBytes'))
+        ok, detail, wit = setbytes_obligation(prog, ck, T, M, pre)
+        record('%s.SetBytes' % fname, ok, detail, (fname, 'SetBytes'))
 
     # MultiSelect: masked selection over a table, all table contents / widths up to the bound
     eng = new_engine(prog, timeout_ms=60000)
